@@ -130,8 +130,11 @@ class Cyclic(Exception):
     pass
 
 
-def clean_value(rules, env, k, stack=()):
-    """what a brand-new engine computes; raises Cyclic when the demanded graph has a cycle"""
+def clean_value(rules, env, k, stack=(), follow_single_use=True):
+    """what a brand-new engine computes; raises Cyclic when the demanded graph has a cycle.
+    With follow_single_use=False single-use requests are not evaluated (their values are masked anyway):
+    this is the reference the incremental engine is held to, because single-use dependencies are by
+    definition dropped from the recorded dependencies and never re-demanded by later builds."""
     if k in stack:
         raise Cyclic()
     r = rules.get(k) or Rule(k, 0)
@@ -145,13 +148,16 @@ def clean_value(rules, env, k, stack=()):
             break
         for q in todo:
             done.add(q)
-            v = clean_value(rules, env, q[0], stack + (k,))   # a brand-new engine builds every request
+            if q[2] == 1 and not follow_single_use:
+                got[q[1]] = 0
+                continue
+            v = clean_value(rules, env, q[0], stack + (k,), follow_single_use)   # a brand-new engine builds every request
             if q[2] == 0:
                 got[q[1]] = v
             elif q[2] == 1:
                 got[q[1]] = 0
     for d in disc_keys(r, got):
-        clean_value(rules, env, d, stack + (k,))
+        clean_value(rules, env, d, stack + (k,), follow_single_use)
     return out_value(r, env, got)
 
 
@@ -366,7 +372,8 @@ def analyse_case(case, houts, focus):
         oracle = houts[i + 1].strip()
         i += 2
         st["builds"] += 1
-        sh.epoch += 1
+        if any(e and e[0] == "QC" for e in tr):
+            sh.epoch += 1          # (a build cancelled before it started does not consume an epoch)
         where = {"case_op": oi, "build_key": o["key"]}
         created, finished, inflight = [], set(), set()
         tasks = {}
@@ -452,7 +459,7 @@ def analyse_case(case, houts, focus):
                 # C01: every input value handed to a task is the current (clean) value of that input
                 if focus in ("C01", "all"):
                     try:
-                        cv = clean_value(case.rules, env, key)
+                        cv = clean_value(case.rules, env, key, follow_single_use=False)
                         if cv != v:
                             fails.append({"what": "stale input: key %d handed to task %d with value %d, clean value is %d" % (key, k, v, cv),
                                           "kind": "stale-input", "input": where})
@@ -528,22 +535,29 @@ def analyse_case(case, houts, focus):
             if not ks or ks[0] != o["key"] or ks[-1] not in ks[:-1]:
                 fails.append({"what": "reported cycle %s does not start at the requested key or does not close" % ks, "kind": "bad-cycle", "input": where})
         # C01 / C07 oracle against a brand-new engine (harness `O` op) and the python reference
-        try:
-            cv = clean_value(case.rules, env, o["key"])
-            cyclic = False
-        except (Cyclic, RecursionError):
-            cv, cyclic = None, True
+        def ref(strict):
+            try:
+                return clean_value(case.rules, env, o["key"], follow_single_use=strict), False
+            except (Cyclic, RecursionError):
+                return None, True
+        cv_strict, cyclic_strict = ref(True)
+        cv, cyclic = ref(False)
         if success:
             st["ok_builds"] += 1
             if cyclic:
                 fails.append({"what": "build of %d succeeded although its demanded graph is cyclic" % o["key"], "kind": "missed-cycle", "input": where})
             else:
-                if ret[1] != oracle:
-                    fails.append({"what": "incremental build of %d returned %s, a brand-new engine returns %s" % (o["key"], ret[1], oracle),
+                if str(cv) != ret[1]:
+                    fails.append({"what": "incremental build of %d returned %s, a brand-new engine returns %s" % (o["key"], ret[1], cv),
                                   "kind": "stale-result", "input": where})
-                if str(cv) != oracle:
-                    fails.append({"what": "python reference %s disagrees with brand-new engine %s for key %d" % (cv, oracle, o["key"]),
-                                  "kind": "reference-mismatch", "input": where})
+                # the real brand-new engine also evaluates single-use requests; compare with it when that is possible
+                if not cyclic_strict:
+                    if ret[1] != oracle:
+                        fails.append({"what": "incremental build of %d returned %s, a brand-new engine returns %s" % (o["key"], ret[1], oracle),
+                                      "kind": "stale-result", "input": where})
+                    if str(cv_strict) != oracle:
+                        fails.append({"what": "python reference %s disagrees with brand-new engine %s for key %d" % (cv_strict, oracle, o["key"]),
+                                      "kind": "reference-mismatch", "input": where})
             # C02: null build executes nothing (rules that declare themselves invalid excepted)
             if not changed_since and last_build_ok_key == o["key"]:
                 st["null_builds"] += 1
@@ -558,7 +572,7 @@ def analyse_case(case, houts, focus):
             last_build_ok_key = None
             if not cyc and not cancelled and not err:
                 fails.append({"what": "build failed without cancellation, cycle or error", "kind": "spurious-failure", "input": where})
-            if cyc and not cyclic and focus in ("C07", "all"):
+            if cyc and not cyclic_strict and focus in ("C07", "all"):
                 # a cycle through dependencies recorded by earlier builds is legitimate; flag only when
                 # no rule has any recorded history (first build of a fresh database)
                 if st["builds"] == 1:
